@@ -19,6 +19,9 @@ EXPLANATION = (
 EXPLANATION += (
     " V6 IrValue's PartialEq (used for IntCmp/FloatCmp Eq and Ne) compares same variants with plain `==` on the payload (IEEE for floats, as fcmp Equal) and diverges otherwise."
 )
+EXPLANATION += (  # round-3 supplement
+    ' V1 evaluates float comparison rows written via partial_cmp to the set of orderings for which they are true. V7 pointer offsetting accumulates (old position + offset).'
+)
 ASSUMPTIONS = [
     "Rust arithmetic on the evaluator's native integers either equals cranelift's wrapping arithmetic or panics (debug overflow checks) - both acceptable for 'agree or stop loudly'",
     "host-call sequences and results over all scripts are not decided statically",
